@@ -272,7 +272,11 @@ def run_case(case):
                 'dead': [list(d) for d in S.dead], 'choices': list(S.choices),
                 'sent_after_close': sum(l.sent_after_close for l in dev.FakeLink.instances),
                 'sessions': len(dev.FakeLink.instances), 'state': cf.state, 'link_none': cf.link is None,
-                'notes': [list(x) for x in S.log], 'lock_edges': lock_edges(S.locklog)}
+                'notes': [list(x) for x in S.log], 'lock_edges': lock_edges(S.locklog),
+                # SyncCrazyflie's bookkeeping at the end of the run (the invariant of C02/SyncModel.v)
+                'sync': {'is_open': bool(scf._is_link_open), 'link': cf.link is not None,
+                         'registered': scf._disconnected in cf.disconnected.callbacks,
+                         'disconnect_event_armed': scf._disconnect_event is not None}}
     finally:
         for f in restore:
             f()
